@@ -3,4 +3,4 @@ import broker
 
 
 def run(res, tier, seed, replay):
-    return broker.run_property(res, "C05", tier, seed, replay, ["C05", "C05float"])
+    return broker.run_property(res, "C05", tier, seed, replay, ["C05", "C05float", "C05sys"])
